@@ -488,6 +488,10 @@ func (tr *fmTracer) prov(e ast.Expr) *fmProv {
 	case *ast.BinaryExpr:
 		return fmMergeProv(tr.prov(x.X), tr.prov(x.Y)).with(FieldStep{Kind: "expr", Note: x.Op.String()})
 	case *ast.IndexExpr:
+		// xs[i] inside `for i := 0; i < len(xs); i++` / `for i := range xs` is the loop element
+		if loop := tr.fm.F.EnclosingLoop(x); loop != nil && LoopElem(info, loop, x) {
+			return tr.prov(loop.X).with(FieldStep{Kind: "elem", Note: loopBodyNote(loop)})
+		}
 		return fmMergeProv(tr.prov(x.X), tr.prov(x.Index)).with(FieldStep{Kind: "expr", Note: "index"})
 	case *ast.SliceExpr:
 		return tr.prov(x.X).with(FieldStep{Kind: "expr", Note: "slice"})
@@ -619,17 +623,7 @@ func (tr *fmTracer) varProv(v types.Object) *fmProv {
 			}
 		case *ast.RangeStmt:
 			if y.Value != nil && ObjOf(info, y.Value) == v {
-				note := ""
-				ast.Inspect(y.Body, func(z ast.Node) bool {
-					switch b := z.(type) {
-					case *ast.FuncLit:
-						return false
-					case *ast.BranchStmt:
-						note = "loop body contains " + b.Tok.String()
-					}
-					return true
-				})
-				ps = append(ps, tr.prov(y.X).with(FieldStep{Kind: "elem", Note: note}))
+				ps = append(ps, tr.prov(y.X).with(FieldStep{Kind: "elem", Note: loopBodyNote(y)}))
 			}
 			if y.Key != nil && ObjOf(info, y.Key) == v {
 				// an index carries no data
@@ -649,9 +643,9 @@ func (tr *fmTracer) appendShape(call *ast.CallExpr) string {
 	if !ok || len(as.Lhs) != 1 || ObjOf(tr.info, as.Lhs[0]) == nil || ObjOf(tr.info, as.Lhs[0]) != ObjOf(tr.info, call.Args[0]) {
 		return "append result is not assigned back to its first argument"
 	}
-	rs, _ := f.Enclosing(call, func(n ast.Node) bool { _, ok := n.(*ast.RangeStmt); return ok }).(*ast.RangeStmt)
+	rs := f.EnclosingLoop(call)
 	if rs == nil {
-		return "append outside a range loop"
+		return "append outside a loop over a slice"
 	}
 	// the append must run on every iteration: directly in the loop body
 	if blk, ok := f.Prog.Parent(f.File, as).(*ast.BlockStmt); !ok || blk != rs.Body {
@@ -664,9 +658,9 @@ func (tr *fmTracer) appendShape(call *ast.CallExpr) string {
 // must be the range key of the innermost enclosing range statement.
 func (tr *fmTracer) storeShape(ix *ast.IndexExpr, at ast.Node) string {
 	f := tr.fm.F
-	rs, _ := f.Enclosing(at, func(n ast.Node) bool { _, ok := n.(*ast.RangeStmt); return ok }).(*ast.RangeStmt)
+	rs := f.EnclosingLoop(at)
 	if rs == nil {
-		return "store outside a range loop"
+		return "store outside a loop over a slice"
 	}
 	if rs.Key == nil || ObjOf(tr.info, rs.Key) == nil || ObjOf(tr.info, rs.Key) != ObjOf(tr.info, ix.Index) {
 		return "store index is not the range key"
@@ -696,4 +690,19 @@ func fmStepsKey(steps []FieldStep) string {
 		k += s.String() + "|" + s.Note + ";"
 	}
 	return k
+}
+
+// loopBodyNote: "" when the loop body runs to its end for every element.
+func loopBodyNote(loop *ast.RangeStmt) string {
+	note := ""
+	ast.Inspect(loop.Body, func(z ast.Node) bool {
+		switch b := z.(type) {
+		case *ast.FuncLit:
+			return false
+		case *ast.BranchStmt:
+			note = "loop body contains " + b.Tok.String()
+		}
+		return true
+	})
+	return note
 }
